@@ -164,6 +164,7 @@ type quantizer struct {
 	// not named here is replaced by what it returns (value provenance) or inlined (bool formula). The
 	// functions named here are the anchors the caller's expected shape talks about; they stay opaque.
 	stop     map[string]bool
+	opaque   map[*ssa.Function]bool // never inlined / seen through, even under inlineAll (their results are atoms)
 	idxProv  bool // describe range induction variables as idx(collection) and slices.Index as indexof(c, x)
 	seeInts  bool // see through in-module helpers for integer-typed results only (matcher algebra)
 	retDepth int
@@ -524,7 +525,7 @@ func (qz *quantizer) seeThrough(callee *ssa.Function) bool {
 // do not return a constant (nil, zero — the companions of an error or a false ok) agree on it.
 func (qz *quantizer) retProv(c *ssa.Call, k int) (string, bool) {
 	callee := c.Call.StaticCallee()
-	if callee == nil || qz.retDepth > 3 {
+	if callee == nil || qz.retDepth > 3 || qz.opaque[callee] {
 		return "", false
 	}
 	res := callee.Signature.Results()
@@ -623,7 +624,7 @@ func (qz *quantizer) boolOf(v ssa.Value, phis map[*ssa.Phi]*qf) *qf {
 	case *ssa.Extract:
 		// a bool component of a helper's result tuple
 		if c, ok := t.Tuple.(*ssa.Call); ok {
-			if callee := c.Call.StaticCallee(); callee != nil && qz.p.InModule(callee) && qz.depth < qz.maxDepth() {
+			if callee := c.Call.StaticCallee(); callee != nil && qz.p.InModule(callee) && qz.depth < qz.maxDepth() && !qz.opaque[callee] {
 				if hasLoop(callee) || qz.inlineAll || qz.seeThrough(callee) {
 					qz.depth++
 					sub := qz.funcFormulaWith(callee, t.Index, c.Call.Args)
@@ -758,7 +759,7 @@ func (qz *quantizer) boolOf(v ssa.Value, phis map[*ssa.Phi]*qf) *qf {
 				}
 			}
 		}
-		if callee := t.Call.StaticCallee(); callee != nil && qz.p.InModule(callee) && qz.depth < qz.maxDepth() {
+		if callee := t.Call.StaticCallee(); callee != nil && qz.p.InModule(callee) && qz.depth < qz.maxDepth() && !qz.opaque[callee] {
 			// inline the callee's own formula when it contains loops (quantifiers); otherwise an atom
 			if hasLoop(callee) || ((qz.inlineAll || qz.seeThrough(callee)) && isBoolType(t.Type())) {
 				qz.depth++
